@@ -668,6 +668,16 @@ func (fr *Frame) runAt(st *State, key string, s ast.Node) {
 		for _, use := range as.Uses {
 			fr.useLemma(st, use, s)
 		}
+		for _, a := range as.Assumes {
+			env := fr.specEnv(st)
+			t, err := fr.evalClause(env, a)
+			if err != nil {
+				fr.x.u.oblige("at["+key+"]:assume-env:"+a.Label, "contract-stale", a.Src, fr.pos(s.Pos()), st.pc, "false").Clause = "contract-stale: " + err.Error()
+				continue
+			}
+			fr.x.u.gfact(st.pc, t)
+			fr.x.u.envAssumes = append(fr.x.u.envAssumes, fr.fnName+": at "+key+": "+a.Src)
+		}
 		for _, mk := range as.Marks {
 			env := fr.specEnv(st)
 			t, err := fr.evalClause(env, mk.Cond)
